@@ -1,2 +1,2 @@
 """check.py configuration of C14 (placeholder, completed below)."""
-CFG = {"claim": "", "profiles": ["release"], "level": "proof"}
+CFG = {"claim": "", "profiles": ["release", "checked"], "level": "proof"}
